@@ -28,8 +28,8 @@ PROP = "C11"
 LEVEL = "model_checking"
 RULE = ("BFS part: state = directory tree (sorted (path, content) list); "
         "from each of 2 roots (empty tree; one file in each of 4 slots = 3 "
-        "periods x user placeholder) ALL sequences of <=3 (quick) / <=4 "
-        "(thorough, cold) operations of an alphabet of 62: 9 writes (4 slots "
+        "periods x user placeholder) ALL sequences of <=3 (quick; warm <=2) / <=4 "
+        "(thorough, cold; warm <=3) operations of an alphabet of 62: 9 writes (4 slots "
         "x 2 payloads, so overwrites occur, + one into a .gz fileset); 44 "
         "moves/copies (5 targets [doy, added end fields, added user "
         "placeholder, .gz, other base directory] x 4 selections [all, "
@@ -474,7 +474,7 @@ def run_bfs_shard(shard):
 
 
 def bfs_shards(tier):
-    runs = [("cold", 3), ("warm", 3)] if tier == "quick" else \
+    runs = [("cold", 3), ("warm", 2)] if tier == "quick" else \
         [("cold", 4), ("warm", 3)]
     out = []
     for mode, depth in runs:
